@@ -61,8 +61,9 @@ def bitfield_verdict(case):
         return REJECT, ["unsupported-base"]
     probs = []
     for f in case["fields"]:
-        if f["array"] is not None and f["array"]["stride"] == 0:
-            return UNSPEC, ["stride-0"]
+        if f["array"] is not None and f["array"]["stride"] == 0 and len(f["ranges"]) > 1:
+            # the statement constrains the stride of contiguous elements only (stride >= width)
+            return UNSPEC, ["stride-0-on-list-array"]
         probs += field_problems(case, f)
     return (REJECT, probs) if probs else (ACCEPT, [])
 
@@ -146,3 +147,17 @@ def enum_verdict(enum):
         elif exh in ("false", None) and count == space:
             probs.append("is-exhaustive-but-not-declared")
     return (REJECT, probs) if probs else (ACCEPT, [])
+
+
+def list_exceeds_storage(case):
+    """a field whose range list selects more bits than the storage integer has (only possible when the list names
+    bits twice). Signature of the known finding D4."""
+    if case.get("kind") != "bitfield":
+        return False
+    for f in case["fields"]:
+        if len(f["ranges"]) > 1 and sum(hi - lo + 1 for lo, hi in f["ranges"]) > case["storage"]:
+            return True
+    return False
+
+
+D4_SHAPE = "range list selecting more bits than the storage integer has"
